@@ -31,6 +31,7 @@ func init() {
 	wrap("C37", c37PkBeforeIndexes)
 	wrap("C42", c42LockHandedOutOnlyIfHeld)
 	wrap("C15", c15BuilderResetComplete)
+	wrap("C08", c08GenerationalOrder)
 	Registry["C24"].Patterns = append(Registry["C24"].Patterns, "./libraries/doltcore/env/actions")
 }
 
@@ -378,4 +379,71 @@ func c15BuilderResetComplete(k *eng.Check) {
 		}
 	}
 	k.Require("builder-reset-complete", "Recycle#all-fields", "Recycle clears every field of the descriptor (loop bound is the descriptor's field count)", full, c.Pos(recycle.Pos()), "the clearing loop is not bounded by Desc.Count()/len(fields)")
+}
+
+// c08GenerationalOrder: in the generational collection (old generation first, then new generation)
+//   - the filter that decides which chunks the new-generation pass may skip can come from the file the
+//     old-generation pass just built (AddChunksToStore's result): in a full collection the rest of the old
+//     generation is about to be dropped, so filtering by "the old generation has it" alone loses chunks;
+//   - the old generation's tables are swapped only after the new generation's swap succeeded: a fault between
+//     the two swaps must not leave chunks that only the old files held in no manifest.
+func c08GenerationalOrder(k *eng.Check) {
+	c := k.C
+	top := k.Fn("(*store/types.ValueStore).GC")
+	if top == nil {
+		return
+	}
+	mGc := eng.Static("(*store/types.ValueStore).gc")
+	var f *ssa.Function
+	for _, g := range eng.WithAnons(top) {
+		if len(eng.Calls(g, mGc, false)) == 2 {
+			f = g
+		}
+	}
+	if f == nil {
+		k.Unknown("generational-order", eng.Name(top), "the function that runs the old-generation and the new-generation pass", "no function with exactly two ValueStore.gc calls")
+		return
+	}
+	k.FuncsSeen[f] = true
+	var oldCall, newCall *ssa.Call
+	for _, ci := range eng.Calls(f, mGc, false) {
+		call := ci.(*ssa.Call)
+		for _, a := range call.Call.Args {
+			if strings.HasSuffix(eng.ShortType(a.Type()), "GCSafepointController") {
+				if isNil(a) {
+					oldCall = call
+				} else {
+					newCall = call
+				}
+			}
+		}
+	}
+	if oldCall == nil || newCall == nil {
+		k.Unknown("generational-order", eng.Name(f), "old-generation pass (nil safepoint controller) and new-generation pass", "could not tell the two gc calls apart")
+		return
+	}
+	mAdd := eng.Named(`GCFinalizer\.AddChunksToStore$`)
+	okFilter := false
+	for _, a := range newCall.Call.Args {
+		if strings.HasSuffix(eng.ShortType(a.Type()), "chunks.HasManyFunc") && eng.MentionsDeep(a, eng.IsCall(mAdd)) {
+			okFilter = true
+		}
+	}
+	k.Require("generational-order", eng.Name(f)+"#newgen-filter", "the new-generation pass can be filtered by the file the old-generation pass just built (needed in full mode)", okFilter, c.InstrPos(newCall),
+		"the filter of the new-generation pass never derives from AddChunksToStore's result: in a full collection chunks held only by the old old-generation files are skipped and then dropped")
+	mSwap := eng.Named(`GCFinalizer\.SwapChunksInStore$`)
+	swapOld, swapNewOK := eng.NewSet(), eng.NewSet()
+	for _, ci := range eng.Calls(f, mSwap, false) {
+		recv := ci.Common().Value
+		if eng.MentionsDeep(recv, func(v ssa.Value) bool { return v == ssa.Value(newCall) }) {
+			swapNewOK.Union(eng.OkCut(ci))
+		} else if eng.MentionsDeep(recv, func(v ssa.Value) bool { return v == ssa.Value(oldCall) }) {
+			swapOld.AddI(ci.(ssa.Instruction))
+		}
+	}
+	if swapOld.Len() < 1 || swapNewOK.Len() < 1 {
+		k.Unknown("generational-order", eng.Name(f)+"#swaps", "the swap calls of the two finalizers", fmt.Sprintf("old: %d, new(ok cut): %d", swapOld.Len(), swapNewOK.Len()))
+		return
+	}
+	k.OnlyAfter("generational-order", f, "the old generation's tables are swapped only after the new generation's swap succeeded", swapOld, 1, swapNewOK)
 }
